@@ -55,6 +55,12 @@ type callObs struct {
 type histObs struct {
 	calls []callObs
 	after []credgen.Opts
+	// the MerklizerOpts backing arrays: heap before the history (cells = options numbered by code
+	// pointer, 0 = empty), each object's slice (array, len, cap), each object's window up to its
+	// capacity after the history
+	zHeap  [][]int
+	zObjs  [][3]int
+	zAfter [][]int
 }
 
 var (
@@ -538,6 +544,36 @@ func (g *gen) run(in *Input) (out outcome) {
 		return all
 	}
 	before := snap()
+	// describe the heap for the model
+	ids := map[uintptr]int{0: 0}
+	idOf := func(p uintptr) int {
+		if _, ok := ids[p]; !ok {
+			ids[p] = len(ids)
+		}
+		return ids[p]
+	}
+	arrOf := map[*merklize.MerklizeOption]int{}
+	for i, r := range objs {
+		fullS := r.MerklizerOpts[:cap(r.MerklizerOpts)]
+		a := -1
+		if len(fullS) > 0 {
+			if k, ok := arrOf[&fullS[0]]; ok {
+				a = k
+			}
+		}
+		if a < 0 {
+			a = len(out.obs.zHeap)
+			cells := make([]int, len(fullS))
+			for j := range fullS {
+				cells[j] = idOf(before[i][j])
+			}
+			out.obs.zHeap = append(out.obs.zHeap, cells)
+			if len(fullS) > 0 {
+				arrOf[&fullS[0]] = a
+			}
+		}
+		out.obs.zObjs = append(out.obs.zObjs, [3]int{a, len(r.MerklizerOpts), cap(r.MerklizerOpts)})
+	}
 	ho := &out.obs
 	usedCred := map[int]bool{}
 	usedOpts := map[int]bool{}
@@ -607,6 +643,13 @@ func (g *gen) run(in *Input) (out outcome) {
 		}
 	}
 	// (4) options and credentials are left as they were
+	for _, ps := range snap() {
+		cells := make([]int, len(ps))
+		for j, p := range ps {
+			cells[j] = idOf(p)
+		}
+		out.obs.zAfter = append(out.obs.zAfter, cells)
+	}
 	for i, o := range in.Opts {
 		after := credgen.FromReal(objs[i])
 		after.Loader, after.Salted = o.Loader, o.Salted
@@ -1161,7 +1204,7 @@ func (g *gen) writeShards() error {
 		or := credgen.NewOracles()
 		poolIdx := map[string]int{}
 		var poolDefs []string
-		var cs []string
+		var cs, zs []string
 		name := filepath.Join(g.cfg.OutDir, fmt.Sprintf("cases_C05_%03d.v", s))
 		for i := lo; i < hi; i++ {
 			in, ob := g.hists[i], g.obs[i]
@@ -1200,6 +1243,31 @@ func (g *gen) writeShards() error {
 			for _, o := range ob.after {
 				af = append(af, o.Coq(f))
 			}
+			if len(ob.zObjs) > 0 {
+				ints := func(l []int) string {
+					var x []string
+					for _, v := range l {
+						x = append(x, fmt.Sprint(v))
+					}
+					return "[" + strings.Join(x, "; ") + "]"
+				}
+				var hp, objsC, callsC, aft []string
+				for _, a := range ob.zHeap {
+					hp = append(hp, ints(a))
+				}
+				for _, o := range ob.zObjs {
+					objsC = append(objsC, fmt.Sprintf("mk_slice %d %d %d", o[0], o[1], o[2]))
+				}
+				for _, k := range in.Calls {
+					if k.Opts >= 0 {
+						callsC = append(callsC, fmt.Sprint(k.Opts))
+					}
+				}
+				for _, a := range ob.zAfter {
+					aft = append(aft, ints(a))
+				}
+				zs = append(zs, fmt.Sprintf("mkz %d [%s] [%s] [%s] [%s]", i, strings.Join(hp, "; "), strings.Join(objsC, "; "), strings.Join(callsC, "; "), strings.Join(aft, "; ")))
+			}
 			cs = append(cs, fmt.Sprintf("mkh %d [%s] [%s] [%s] [%s]", i, strings.Join(os, "; "), strings.Join(ks, "; "), strings.Join(obl, ";\n     "), strings.Join(af, "; ")))
 			g.rep.Case(name, i, in)
 		}
@@ -1211,7 +1279,8 @@ func (g *gen) writeShards() error {
 		f.Add("Definition creds_ : list cred := [" + strings.Join(names, "; ") + "].")
 		f.Add("Definition oracles_ : raw_oracles := " + or.Coq(f) + ".")
 		f.Add("Definition cases_ : list hcase := " + coqgen.List(cs) + ".")
-		f.Add("Definition M := Eval vm_compute in hmismatches oracles_ creds_ cases_.")
+		f.Add("Definition zcases_ : list zcase := " + coqgen.List(zs) + ".")
+		f.Add("Definition M := Eval vm_compute in (hmismatches oracles_ creds_ cases_ ++ zmismatches zcases_)%list.")
 		f.Add("Print M.")
 		if err := f.Write(name); err != nil {
 			return err
